@@ -135,15 +135,39 @@ def translate(repo):
     for n in tree.body:
         if isinstance(n, ast.ClassDef) and n.name == "LRU":
             for m in n.body:
-                if isinstance(m, ast.FunctionDef) and m.name in dict((h[0], 1) for h in HELPERS):
+                if isinstance(m, ast.FunctionDef) and m.name.startswith("_") and not m.name.startswith("__"):
                     raise Unsupported("LRU overrides %s" % m.name)
     lines = ["(* generated by harness/translators/c02_helpers.py from %s; do not edit *)" % "boltons/cacheutils.py",
              "From Boltons Require Import Lib.Prelude Lib.C02_Syntax Model.C02_Model Model.C02_PtrModel Model.C02_PtrInterp.",
              ""]
-    for pyname, coqname, nparams in HELPERS:
-        if pyname not in fns:
-            raise Unsupported("LRI.%s not found" % pyname)
-        prog = _Fn(fns[pyname], nparams).program()
+    # The helpers are recognised by what they do, not by their names (renaming a private helper is a
+    # harmless refactoring): every private method of LRI that lies inside the subset is translated and
+    # given a role by its distinctive construct; each role must be filled exactly once.
+    ROLES = [("gen_init_ll", "SFill "), ("gen_add_to_front", "ENewCell "), ("gen_evict", "SLookupDel "),
+             ("gen_remove", "ELookupPop "), ("gen_move_to_front", "SReturn ")]
+    progs = {}
+    for name, fn in fns.items():
+        if not name.startswith("_") or name.startswith("__"):
+            continue
+        try:
+            progs[name] = _Fn(fn, len(fn.args.args) - 1).program()
+        except (Unsupported, IndexError):
+            continue                       # not a straight-line helper (e.g. _print_ll, _get_flattened_ll)
+    found = {}
+    for name, prog in progs.items():
+        text = " ".join(prog)
+        mine = [r for r, mark in ROLES if mark in text]
+        if "gen_evict" in mine and "gen_move_to_front" in mine:
+            mine.remove("gen_move_to_front")        # the evicting helper also returns a value
+        if len(mine) != 1:
+            raise Unsupported("cannot classify private method %s: %r" % (name, mine))
+        if mine[0] in found:
+            raise Unsupported("two candidates for %s: %s and %s" % (mine[0], found[mine[0]][0], name))
+        found[mine[0]] = (name, prog)
+    for coqname, _ in ROLES:
+        if coqname not in found:
+            raise Unsupported("no straight-line private method of LRI plays the role %s" % coqname)
+        pyname, prog = found[coqname]
         lines.append("(* LRI.%s *)" % pyname)
         lines.append("Definition %s : list stmt :=\n  [ %s ].\n" % (coqname, ";\n    ".join(prog)))
     return "\n".join(lines)
@@ -166,6 +190,7 @@ def selftest(repo="/repo"):
             ("evict via anchor[PREV]", "self._anchor = anchor = oldanchor[NEXT]", "self._anchor = anchor = oldanchor[PREV]", "differs"),
             ("dropped back-pointer write", "        link[NEXT][PREV] = link[PREV]\n", "", "differs"),
             ("renamed local", "second_newest", "penultimate", "same"),
+            ("renamed private helper", "_remove_from_ll", "_unlink", "same_programs"),
             ("if statement in a helper", "        link = self._link_lookup.pop(key)\n",
              "        link = self._link_lookup.pop(key)\n        if link is None:\n            return\n", "refused")]:
         assert old in src, name
@@ -176,6 +201,9 @@ def selftest(repo="/repo"):
             try:
                 out = translate(d)
                 got = "same" if out == good else "differs"
+                if expect == "same_programs":
+                    strip = lambda t: [l for l in t.splitlines() if not l.startswith("(* LRI.")]
+                    got = "same_programs" if strip(out) == strip(good) else "differs"
             except Unsupported:
                 got = "refused"
         finally:
